@@ -3,6 +3,7 @@ package main
 import (
 	"fmt"
 	"strings"
+	"time"
 )
 
 // Case is one fault-injection program or template.
@@ -22,6 +23,8 @@ type Case struct {
 	RunVars map[string]any
 	// Extra are further template files (imported or extended).
 	Extra map[string]string
+	// Timeout, if not zero, is the deadline of the context given to Run.
+	Timeout time.Duration
 }
 
 func prog(body string, decls ...string) string {
